@@ -4,10 +4,13 @@
 Require Extraction.
 Require ExtrOcamlBasic.
 From Coq Require Import ZArith String List.
-From LW Require Import Base.Bytes Model.Epoch Model.TagName.
+From LW Require Import Gen.Consts Base.Bytes Base.Sweep Model.Epoch Model.TagName Spec.Numbers Model.TagIter Spec.TagSpec Model.Tags.
 Extraction Language OCaml.
 Set Extraction KeepSingleton.
 Extraction "model.ml"
   Z.add Z.mul Z.sub Z.div Z.modulo Z.eqb Z.ltb Z.leb Z.of_nat Z.to_nat Z.opp
   le_enc le_dec rd_bytes rd_strict
-  epoch get_tag_name.
+  epoch get_tag_name spec_tag_name all_mismatches all_dups kinds covered
+  tag_init tag_next cur_elem iterate spec_iterate elements reported
+  tags_empty quick_add_tag remove_tag check_tag set_ssid set_channel dump_tag step enc spec_step
+  c_TAG_SSID c_TAG_DS_PARAMETER.
